@@ -9,7 +9,7 @@ rsync -a --exclude target --exclude .git /repo/ $R/
 ( cd $R && git init -q . 2>/dev/null; patch -p1 -s < /verif/seeded/$ID/patch.diff ) || { echo "patch does not apply"; rm -rf $R; exit 2; }
 rsync -a --exclude .git --exclude replays --exclude work /verif/ $V/
 sed -i "s#path = \"/repo\"#path = \"$R\"#" $V/harness/Cargo.toml
-cd $V
+cd $V; export VERIF_REPO=$R
 for P in "$@"; do
   OUT=$(./check $P 2>&1); RC=$?
   echo "== $P rc=$RC"
